@@ -263,3 +263,75 @@ def c14_delete_recomputes_work(ctx, v):
             m2 += 1
     v.covers_total += 1
     v.covers_sat += 1 if m2 else 0
+
+
+def c14_bundle_releases_reservations(ctx, v):
+    """Mempool::bundle_block: when it returns a block, every input of every transaction the
+    block carries — whatever the transaction's type — is no longer reserved in utxo_map (the
+    block may still fail validation or be reorganised away, and then those outputs must be
+    spendable through the pool again).  Block::create's result is an explicit symbolic input: a
+    block of two transactions of symbolic type with one input each, whose keys are reserved."""
+    from .models import mk_some, mk_none, as_enum, enum_is
+    ex = ctx.executor(loop_bound=5, inline="auto", max_paths=3000, no_inline=[r"fmt", r"to_hex", r"StatVariable", r"Duration", r"get_latest_block", r"create_staking_transaction$", r"get_consensus_config$"])
+    ex.pure = [r".*"]
+    ins = [L.sym_slip(ctx, ex, "btx%d.in" % i) for i in range(2)]
+    types = [ex.fresh_value("TransactionType", "btx%d.type" % i) for i in range(2)]
+    btxs = [ctx.mk_struct(ex, "Transaction", "btx%d" % i, **{"from": S.Seq([ins[i]], "Slip"), "transaction_type": types[i]}) for i in range(2)]
+    block = ctx.mk_struct(ex, "Block", "created", transactions=S.Seq(btxs, "Transaction"))
+    key = lambda s: L.slip_field(ctx, s, "utxoset_key")
+    umap = S.MapV("utxo_map", [[z3.BoolVal(True), key(s), S.const_int(1, "u64")] for s in ins])
+    pool = ctx.mk_struct(ex, "Mempool", "mempool", utxo_map=umap)
+
+    def ready(x):
+        return S.Agg("struct", "ReadyFuture", [x])
+
+    def result(ok_payload, name):
+        res = S.EnumV(name, "Ok", None, {"Ok": S.Agg("variant", "Ok", [ok_payload])})
+        return res
+
+    def hook(ex_, st, callee, args, dty):
+        if re.search(r"Mempool::can_bundle_block$", callee):
+            return ready(mk_some("Option<u64>", ex_.fresh_value("u64", "mempool_work")))
+        if re.search(r"Block::create$", callee):
+            return ready(result(block, "Result<Block, Error>"))
+        if re.search(r"Block::generate$", callee):
+            return result(S.Agg("tuple", "()", []), "Result<(), Error>")
+        if re.search(r"create_staking_transaction$", callee):
+            return result(S.Opaque("staking_tx", "Transaction"), "Result<Transaction, Error>")
+        if re.search(r"add_transaction_if_validates$", callee):
+            return ready(S.Agg("tuple", "()", []))
+        return None
+    ex.on_call = hook
+    st = S.State()
+    st.pc.extend([L.enum_in_range(t, L.TX_TYPES) for t in types] + [z3.Not(value_eq(ex, key(ins[0]), key(ins[1])))])
+    gt = S.EnumV("Option<Transaction>", "None", None, {"None": S.Agg("variant", "None", [])})
+    body, co = L.coroutine(ctx, ex, r"mempool::<impl at [^>]*>::bundle_block",
+                           [S.Ref(S.Cell(pool), (), True), S.Ref(S.Cell(S.Opaque("blockchain", "Blockchain"))), ex.fresh_value("u64", "current_timestamp"), gt,
+                            S.Ref(S.Cell(S.Opaque("cfg", "dyn Configuration"))), S.Ref(S.Cell(S.Opaque("storage", "Storage")))])
+    outs = ex.run(body, [S.Ref(S.Cell(co), (), True), S.Opaque("cx", "Context")], st)
+    v.paths += len(outs)
+    n = 0
+    for o in outs:
+        if o.kind in ("unsupported", "unwound", "path-limit"):
+            return v.undecided("%s %s" % (o.kind, o.info))
+        if o.kind != "return":
+            continue
+        res = as_enum(ex, L.ready_value(ex, o), "Option")
+        if not ex.feasible(o.pc, enum_is(ex, res, "Some")):
+            continue
+        post = _post_pool(ex, o)
+        if post is None:
+            return v.undecided("pool not found in coroutine state")
+        pmap = post.fields[ctx.field_index("Mempool", "utxo_map")]
+        for i, s in enumerate(ins):
+            still = z3.Or(*[z3.And(p, value_eq(ex, k, key(s))) for p, k, _ in pmap.entries]) if pmap.entries else z3.BoolVal(False)
+            r, m = ex.model_for(o.pc, z3.And(enum_is(ex, res, "Some"), still))
+            v.queries += 1
+            if r == z3.sat:
+                tname = [nm for nm, d in ctx.enums["TransactionType"] if d == m.eval(types[i].discr.bv, model_completion=True).as_long()]
+                v.fail("bundle_block returns a block but the input of its transaction %d (type %s) stays reserved in utxo_map" % (i, tname[0] if tname else "?"))
+        n += 1
+    if not n:
+        return v.undecided("no path returns a block")
+    v.covers_total += 1
+    v.covers_sat += 1
